@@ -163,6 +163,13 @@ pub const KF1: &str = "KF1-pretty-positional-field-options-reset";
 pub fn judge(case: &Case) -> Judged {
     let dm = run_side(case, Side::Dm);
     let rf = run_side(case, Side::Ref);
+    if let Layer::Derived { type_idx, .. } = &case.layer {
+        if corpus::EXCLUDED[*type_idx] {
+            // no derive_more::Debug impl exists for this type (a violation of its own, reported by the driver);
+            // what stands in for it is the reference impl, which says nothing about derive_more
+            return Judged { verdict: Verdict::Agree, dm, rf };
+        }
+    }
     // harness self-check: where std's derive exists, the hand-written reference must equal it
     if let Layer::Derived { type_idx, .. } = &case.layer {
         if corpus::HAS_SD[*type_idx] {
